@@ -130,12 +130,21 @@ def filt(slots):
         e = dict(os.environ, CARGO_NET_OFFLINE='true')
         if env:
             e.update(env)
+        # own process group, so that a mutant that hangs the test binary is killed together with its shell
+        import signal
+        pr = subprocess.Popen(cmd, cwd=cwd, shell=True, stdout=subprocess.PIPE, stderr=subprocess.PIPE, text=True, env=e, start_new_session=True)
         try:
-            return subprocess.run(cmd, cwd=cwd, shell=True, capture_output=True, text=True, env=e, timeout=timeout)
+            so, se = pr.communicate(timeout=timeout)
         except subprocess.TimeoutExpired:
-            class R:
-                returncode = 124; stdout = 'TIMEOUT'; stderr = ''
-            return R()
+            os.killpg(pr.pid, signal.SIGKILL)
+            pr.communicate()
+            so, se = 'TIMEOUT', ''
+
+        class R:
+            pass
+        r = R()
+        r.returncode, r.stdout, r.stderr = (pr.returncode if so != 'TIMEOUT' else 124), so, se
+        return r
 
     def worker(k):
         wt = f'/tmp/mutslot{k}'
